@@ -172,6 +172,15 @@ pub fn plan(tier: Tier) -> Plan {
             }
         }));
     }
+    p.units.push(unit("long-key-family", "long keys".into(), move |st, rep| {
+        for (_, kvs) in long_key_family() {
+            if kvs[0].0.len() > 2000 {
+                continue; // the probe closure is quadratic in the key length
+            }
+            st.nontrivial += 1;
+            do_case(&kvs, (2, 2), false, &[], st, rep);
+        }
+    }));
     p.must_be_nonzero = vec!["fanout_cases".into(), "label_cases".into()];
     p
 }
